@@ -78,7 +78,6 @@ def lowT : DT → Bool
     of vertex or edge type (what "defined before use" yields, see `inv`), aggregations are typed. -/
 def okArg (t : DT) : Arg → Bool
   | .marks .one mt => !(isVE t) || isVE mt
-  | .aggs _ u => !u
   | _ => true
 
 /-- Table fact 1: in scope, both trees give the same outcome for every kind, type and argument. -/
@@ -156,11 +155,10 @@ theorem lookupM_mem (marks : List (String × DT)) (n : String) (h : n ∈ marks.
 
 theorem okArg_argOf (nm : Names) (st : St) (s : TStmt) (names : List String) (hinv : inv st)
     (hn : ∀ n ∈ names, n ∈ st.marks.map (·.1))
-    (hd : (if s.kind == .select then s.list.all (fun m => names.contains m) else true) = true)
-    (hu : s.unk = false) :
+    (hd : (if s.kind == .select then s.list.all (fun m => names.contains m) else true) = true) :
     okArg st.t (argOf nm st s) = true := by
   unfold argOf
-  cases hk : s.kind <;> simp only [okArg, hu, Bool.not_false]
+  cases hk : s.kind <;> simp only [okArg]
   -- select
   simp only [hk, beq_self_eq_true, if_true] at hd
   cases hl : s.list with
@@ -216,21 +214,19 @@ theorem stepT_inv (nm : Names) (st st' : St) (s : TStmt) (hinv : inv st)
 
 theorem runT_agree (nm : Names) : ∀ (ss : List TStmt) (st : St) (names : List String),
     inv st → (∀ n ∈ names, n ∈ st.marks.map (·.1)) → definedFrom names ss = true →
-    aggsTyped ss = true → runT tm nm st ss = runT tc nm st ss
-  | [], _, _, _, _, _, _ => rfl
-  | s :: ss, st, names, hinv, hn, hd, ha => by
+    runT tm nm st ss = runT tc nm st ss
+  | [], _, _, _, _, _ => rfl
+  | s :: ss, st, names, hinv, hn, hd => by
     simp only [definedFrom, Bool.and_eq_true] at hd
     obtain ⟨hd1, hd2⟩ := hd
-    simp only [aggsTyped, List.all_cons, Bool.and_eq_true, Bool.not_eq_true'] at ha
-    obtain ⟨ha1, ha2⟩ := ha
-    have hok := okArg_argOf nm st s names hinv hn hd1 ha1
+    have hok := okArg_argOf nm st s names hinv hn hd1
     simp only [runT]
     rw [stepT_agree nm st s hok]
     cases hs : stepT tc nm st s with
     | none => rfl
     | some st' =>
       obtain ⟨hinv', hname, hsub⟩ := stepT_inv nm st st' s hinv hok hs
-      refine runT_agree nm ss st' _ hinv' ?_ hd2 (by simpa [aggsTyped] using ha2)
+      refine runT_agree nm ss st' _ hinv' ?_ hd2
       intro n hnn
       by_cases hk : s.kind = .as_
       · simp only [hk, beq_self_eq_true, if_true, List.mem_cons] at hnn
